@@ -7,6 +7,7 @@ stages: translate summator.pyx -> Gallina (tie 1) ; theorems props/C16.v (refine
         probes on the implementation: central-difference divergence with a rigorous error budget, ensemble mean
         and component variances over seeds (6 standard errors), structured grid = pointwise evaluation."""
 import json
+import os
 import math
 import warnings
 
@@ -479,7 +480,7 @@ def modes_of(srf):
     return (np.asarray(g._cov_sample, dtype=float), np.asarray(g._z_1, dtype=float), np.asarray(g._z_2, dtype=float))
 
 
-def divergence_budget(srf, cfg, x):
+def divergence_budget(srf, cfg, x, ev=None):
     """constants of the error budget of a central-difference divergence estimate with step h at the points x:
        |estimate - true divergence| <= T h^2 + R/h + S   (T scalar; R, S per point), see design/C16.md.
        u_d = mean_u e1_d + amp sum_j P_dj (z1_j cos phi_j + z2_j sin phi_j)"""
@@ -492,7 +493,7 @@ def divergence_budget(srf, cfg, x):
     # measure it at the points and take the larger one (so that a wrong amplitude alone is never reported as divergence)
     from gstools.field import summator as S
     sm = np.asarray(S.summate_incompr(ks, z1, z2, np.ascontiguousarray(x)))
-    u0 = np.asarray(srf(tuple(x), mesh_type="unstructured")) - cfg["mean_u"] * e1[:, None]
+    u0 = np.asarray(ev(x) if ev else srf(tuple(x), mesh_type="unstructured")) - cfg["mean_u"] * e1[:, None]
     if np.isfinite(sm).all() and (sm ** 2).sum() > 0:
         amp = 1.01 * max(amp, math.sqrt(float((u0 ** 2).sum() / (sm ** 2).sum())))
     k2 = (ks ** 2).sum(0)
@@ -511,7 +512,7 @@ def divergence_budget(srf, cfg, x):
     return T, R, S, float(np.abs(ks).max())
 
 
-def divergence_case(srf, cfg, x, h, budget=None):
+def divergence_case(srf, cfg, x, h, budget=None, ev=None):
     """central-difference divergence of the implementation's field at the points x (dim, n) with step h.
     returns dict(div, bound, grad) arrays over the points"""
     dim, n = x.shape
@@ -522,7 +523,7 @@ def divergence_case(srf, cfg, x, h, budget=None):
     for d in range(dim):
         xs[d, 2 * d, :] += h
         xs[d, 2 * d + 1, :] -= h
-    u = np.asarray(srf(tuple(xs.reshape(dim, -1)), mesh_type="unstructured")).reshape(dim, 2 * dim, n)
+    u = np.asarray(ev(xs.reshape(dim, -1)) if ev else srf(tuple(xs.reshape(dim, -1)), mesh_type="unstructured")).reshape(dim, 2 * dim, n)
     grad = np.empty((dim, dim, n))                           # grad[c, d] = d u_c / d x_d
     hmin = h
     for d in range(dim):
@@ -562,15 +563,17 @@ def probe_divergence(ctx, rng):
                      "for a point to count as non-trivial; %d evaluations were above that and only counted as trivial)" % (worst, insens))
 
 
-def run_divergence(ctx, cfg, x, stats=None):
-    case = dict(cfg, x=hexarr(x))
+def run_divergence(ctx, cfg, x, stats=None, via=None):
+    """via = (label, factory): factory(srf) returns an evaluator pos -> field going through another public entry point"""
+    case = dict(cfg, x=hexarr(x), via=via[0] if via else "SRF.__call__")
     try:
         with warnings.catch_warnings():
             warnings.simplefilter("ignore")
             srf = make_srf(cfg)
-            bud = divergence_budget(srf, cfg, x)
+            ev = via[1](srf) if via else None
+            bud = divergence_budget(srf, cfg, x, ev)
             steps = divergence_steps(bud[0], bud[1], bud[3])
-            res = [divergence_case(srf, cfg, x, h, bud) for h in steps]
+            res = [divergence_case(srf, cfg, x, h, bud, ev) for h in steps]
     except Exception as e:
         ctx.violation("probe: divergence", "unexpected exception %r" % (e,), case, key="div:exception")
         return
@@ -895,6 +898,278 @@ def probe_sphere(ctx, rng):
                               dict(dim=dim, seed=seed, n=n), key="sphere:param", no_input=True)
 
 
+# ----------------------------------------------------------------------------------------------- entry points, sizes, mean/trend
+
+def mesh_of_points(pos, cols, blocks):
+    """meshio mesh whose points carry the coordinates pos (dim, n) in the columns `cols` of an (n, len(all cols)) array
+    (other columns filled with unrelated numbers) and one 'vertex' cell per point, split into `blocks` cell blocks"""
+    import meshio
+    dim, n = pos.shape
+    width = max(max(cols) + 1, dim)
+    pts = np.full((n, width), 123.25)
+    for d, c in enumerate(cols):
+        pts[:, c] = pos[d]
+    edges = np.linspace(0, n, blocks + 1).astype(int)
+    cells = [("vertex", np.arange(a, b).reshape(-1, 1)) for a, b in zip(edges[:-1], edges[1:])]
+    return meshio.Mesh(points=pts, cells=cells)
+
+
+def entry_points(dim, rng):
+    """adapters: label -> factory(srf) -> (pos (dim,n) -> field (dim,n)) through every public way of evaluating at given points"""
+    names = "xyz"
+    perms = [list(range(dim)), list(range(dim))[::-1]] + ([[0, 2]] if dim == 2 else [[1, 2, 0]])
+    out = [("SRF.unstructured", lambda srf: (lambda pos: srf.unstructured(tuple(pos)))),
+           ("SRF.__call__ (list of arrays)", lambda srf: (lambda pos: srf([np.array(p) for p in pos]))),
+           ("SRF.__call__ (2-d array)", lambda srf: (lambda pos: srf(np.array(pos))))]
+    for cols in perms:
+        for as_string in (True, False):
+            direction = "".join(names[c] for c in cols) if as_string else list(cols)
+            for where in ("points", "centroids"):
+                blocks = int(rng.integers(1, 4))
+                nm = "vel" if as_string else "field"
+
+                def fac(srf, cols=cols, direction=direction, where=where, blocks=blocks, nm=nm):
+                    def ev(pos):
+                        mesh = mesh_of_points(np.asarray(pos), cols, blocks if where == "centroids" else 1)
+                        ret = np.asarray(srf.mesh(mesh, points=where, direction=direction, name=nm))
+                        if where == "points":
+                            stored = np.asarray(mesh.point_data[nm])
+                        else:
+                            stored = np.vstack([np.asarray(b) for b in mesh.cell_data[nm]])
+                        if stored.shape != (np.shape(pos)[1], srf.dim):
+                            raise AssertionError("data stored in the mesh has shape %r for %d points in %d-D" % (stored.shape, np.shape(pos)[1], srf.dim))
+                        if not C.bit_equal(ret, stored.T):
+                            raise AssertionError("data stored in the mesh differs from the returned field")
+                        return stored.T
+                    return ev
+                out.append(("SRF.mesh(points=%r, direction=%r, %d cell block(s))" % (where, direction, blocks), fac))
+    return out
+
+
+def probe_entry_points(ctx, rng):
+    """every public way of evaluating the vector field at given points — unstructured(), call with lists / arrays, mesh() on meshio
+    meshes (points / centroids, several cell blocks, direction strings and lists, custom names) — must return and STORE, point by
+    point, the vectors of the pointwise field (bitwise); real cell types (triangles, quads, tetrahedra) give centroid data per block;
+    the divergence probe is run on the data stored in a mesh."""
+    import meshio
+    for dim in (2, 3):
+        name = CLASSES[int(rng.integers(len(CLASSES)))]
+        cfg = rand_cfg(rng, name, dim, mode_choices=(2, 7, 64))
+        n = int(rng.choice([1, dim, 7, 12]))
+        pos = np.ascontiguousarray(rng.uniform(-5, 5, size=(dim, n)) * cfg["len_scale"])
+        case = dict(cfg, pos=hexarr(pos))
+        try:
+            with warnings.catch_warnings():
+                warnings.simplefilter("ignore")
+                ref = np.asarray(make_srf(cfg)(tuple(pos), mesh_type="unstructured"))
+        except Exception as e:
+            ctx.violation("probe: entry points", "unexpected exception %r" % (e,), case, key="entry:exception")
+            continue
+        eps_ = entry_points(dim, rng)
+        for label, fac in eps_:
+            ctx.count(("entry", label.split("(")[0], dim, n), hist=dict(stage="entry-points", via=label.split(",")[0], dim=dim, n_points=n))
+            try:
+                with warnings.catch_warnings():
+                    warnings.simplefilter("ignore")
+                    got = np.asarray(fac(make_srf(cfg))(pos))
+                msg = None if (got.shape == ref.shape and C.bit_equal(got, ref)) else "field differs from the pointwise field"
+            except AssertionError as e:
+                msg, got = str(e), np.zeros(0)
+            except Exception as e:
+                ctx.violation("probe: entry point %s" % label, "unexpected exception %r" % (e,), case, key="entry:exception:%s" % label.split("(")[0])
+                continue
+            if msg:
+                ctx.violation("probe: entry point %s (%d points in %d-D)" % (label, n, dim),
+                              "%s: the vector stored / returned for point i must be the field at point i (component d in column / row d)" % msg,
+                              dict(case, via=label, got=hexarr(got), expected=hexarr(ref)), key="entry:%s" % label.split(",")[0])
+        # real cells: centroids per block
+        try:
+            with warnings.catch_warnings():
+                warnings.simplefilter("ignore")
+                npts = 9
+                pts = rng.uniform(-5, 5, size=(npts, dim)) * cfg["len_scale"]
+                kinds = [("triangle", 3), ("quad", 4)] if dim == 2 else [("tetra", 4), ("hexahedron", 8), ("triangle", 3)]
+                cells = [(k, rng.integers(0, npts, size=(int(rng.integers(1, 5)), m))) for k, m in kinds]
+                mesh = meshio.Mesh(points=pts, cells=cells)
+                srf = make_srf(cfg)
+                srf.mesh(mesh, points="centroids", name="u")
+                cen = np.vstack([np.mean(pts[c], axis=1) for _, c in cells])
+                refc = np.asarray(make_srf(cfg)(tuple(cen.T), mesh_type="unstructured"))
+                stored = mesh.cell_data["u"]
+                ok = len(stored) == len(cells) and all(np.shape(b) == (len(c), dim) for b, (_, c) in zip(stored, cells)) \
+                    and C.bit_equal(np.vstack(stored).T, refc)
+                srf.mesh(mesh, points="points", name="u")
+                refp = np.asarray(make_srf(cfg)(tuple(pts.T), mesh_type="unstructured"))
+                okp = np.shape(mesh.point_data["u"]) == (npts, dim) and C.bit_equal(np.asarray(mesh.point_data["u"]).T, refp)
+        except Exception as e:
+            ctx.violation("probe: entry points (cells)", "unexpected exception %r" % (e,), case, key="entry:exception:cells")
+            continue
+        ctx.count(("entry", "cells", dim), hist=dict(stage="entry-points", via="SRF.mesh real cells", dim=dim))
+        if not ok or not okp:
+            ctx.violation("probe: SRF.mesh on a mesh with %s" % [k for k, _ in kinds],
+                          "%s data stored in the mesh are not the pointwise field at the %s" % (
+                              "cell" if not ok else "point", "cell centroids (per block)" if not ok else "mesh points"),
+                          dict(case, points=hexarr(pts), cells=[(k, c.tolist()) for k, c in cells]),
+                          key="entry:mesh-cells:%s" % ("centroids" if not ok else "points"))
+        # divergence of the data stored in a mesh
+        lab, fac = [e for e in eps_ if e[0].startswith("SRF.mesh(points='points'")][int(rng.integers(2))]
+        x = np.ascontiguousarray(rng.uniform(-10, 10, size=(dim, 4)) * cfg["len_scale"])
+        run_divergence(ctx, dict(cfg, mode_no=max(cfg["mode_no"], 7)), x, via=(lab, fac))
+
+
+def size_thresholds():
+    """numeric constants >= 1e5 in the generator / SRF sources under test (chunk or buffer thresholds), plus the generic 1e7"""
+    import re
+    found = {1e7}
+    for rel in ("field/generator.py", "field/srf.py", "field/base.py", "field/tools.py"):
+        try:
+            src = open(os.path.join(C.REPO, "src/gstools", rel)).read()
+        except OSError:
+            continue
+        for m in re.finditer(r"(?<![\w.])(\d[\d_]*(?:\.\d*)?(?:[eE][+-]?\d+)?|\d+\s*\*\*\s*\d+)(?![\w.])", src):
+            try:
+                v = float(eval(m.group(1).replace("_", ""), {"__builtins__": {}}))
+            except Exception:
+                continue
+            if 1e5 <= v <= 2e8:
+                found.add(v)
+    return sorted(found)
+
+
+def probe_sizes(ctx, rng, drv):
+    """'at every point' for big batches: n * mode_no just below / at / above every size threshold found in the sources (and 1e7),
+    with n not a multiple of small numbers; the batch call is compared bitwise with the same points evaluated in blocks of 997,
+    and with the extracted model at a sample of indices that includes the first and the last points"""
+    from gstools.field.generator import IncomprRandMeth
+    import gstools as gs
+    thorough = ctx.tier == "thorough"
+    cases = []
+    for c in size_thresholds():
+        for N in ((1000, 5000, 333) if thorough else (1000, 5000)):
+            q = int(c // N)
+            ns = [q - 1, q, q + 1, int(1.02 * q) | 1] + ([int(2.3 * q) + 7] if N == 1000 else [])
+            if not thorough and N != 1000:
+                ns = [int(0.8 * q) + 1 | 1, q + 1]
+            for n in ns:
+                if 2 <= n and n * N <= 6e7:
+                    cases.append((c, N, n))
+    done = 0
+    for c, N, n in cases:
+        dim = 2 if (done % 3 or not thorough) else 3
+        case = dict(threshold=c, mode_no=N, n_points=n, dim=dim)
+        try:
+            with warnings.catch_warnings():
+                warnings.simplefilter("ignore")
+                model = gs.Gaussian(dim=dim, var=1.7, len_scale=2.0)
+                seed = int(rng.integers(0, 2 ** 31 - 1)); case["seed"] = seed
+                g = IncomprRandMeth(model, mean_velocity=0.8, mode_no=N, seed=seed)
+                pos = np.ascontiguousarray(rng.uniform(-20, 20, size=(dim, n)))
+                via_srf = (done % 4 == 3)
+                if via_srf:
+                    srf = gs.SRF(model, generator="VectorField", mean_velocity=0.8, mode_no=N, seed=seed)
+                    batch = np.asarray(srf(tuple(pos), mesh_type="unstructured"))
+                else:
+                    batch = np.asarray(g(pos, add_nugget=False))
+                blocks = np.hstack([np.asarray(g(np.ascontiguousarray(pos[:, i:i + 997]), add_nugget=False)) for i in range(0, n, 997)])
+                idx = sorted(set([0, 1, n // 2, n - 3, n - 2, n - 1]) & set(range(n)))
+                ks, z1, z2 = (np.ascontiguousarray(np.asarray(a, dtype=float)) for a in (g._cov_sample, g._z_1, g._z_2))
+                sub = np.ascontiguousarray(pos[:, idx])
+                mod = np.asarray(drv.call("generate", 0.8, float(model.var), ("z", N), ks, z1, z2, sub, np.zeros_like(sub))) if drv else None
+        except Exception as e:
+            ctx.violation("probe: sizes", "unexpected exception %r" % (e,), case, key="sizes:exception")
+            continue
+        done += 1
+        ctx.count(("sizes", c, N, n), hist=dict(stage="size-classes", threshold="%g" % c, mode_no=N, side=("below" if n * N < c else "at" if n * N == c else "above")))
+        bad = None
+        if batch.shape != blocks.shape:
+            bad = "batch shape %r" % (batch.shape,)
+        elif not C.bit_equal(batch, blocks):
+            w = np.nonzero((batch != blocks).any(0))[0]
+            bad = "%d of %d points differ from their evaluation in small blocks, first index %d, last index %d; batch value at the last one %r" % (
+                len(w), n, w[0], w[-1], batch[:, w[-1]].tolist())
+        elif mod is not None:
+            from gstools.field import summator as S
+            sm = np.asarray(S.summate_incompr(ks, z1, z2, sub))
+            if not (np.abs(batch[:, idx] - mod) <= wrapper_tol(0.8, 0.8 * math.sqrt(float(model.var) / N), sm, np.zeros_like(sm))).all():
+                bad = "batch differs from the extracted model at indices %r" % (idx,)
+        if bad:
+            ctx.violation("probe: batch of %d points x %d modes (%s), threshold %g" % (n, N, "SRF" if via_srf else "generator", c),
+                          "the field is not the pointwise field at every point of a big batch: " + bad,
+                          dict(case, via="SRF" if via_srf else "generator"), key="sizes:n*mode_no~%g" % c)
+    ctx.notes.append("size classes: thresholds %r, %d batches" % (size_thresholds(), done))
+
+
+def probe_mean_trend(ctx, rng):
+    """mean and trend of the vector SRF given as scalars, vectors (tuple / list / array / 0-d, 1-element), callables returning a
+    scalar or a vector, alone and together, all mesh types: field(mean=a, trend=b) = (field() + a) + b componentwise (bitwise)"""
+    import gstools as gs
+    for dim in (2, 3):
+        name = CLASSES[int(rng.integers(len(CLASSES)))]
+        cfg = rand_cfg(rng, name, dim, mode_choices=(2, 7, 33))
+        vec = [float(v) for v in rng.uniform(-3, 3, size=dim)]
+        vec0 = [0.5] + [0.0] * (dim - 1)
+        lin = lambda *p: np.array([0.3 * p[0] + 1.0] + [-0.2 * q for q in p[1:]])      # vector-valued callable
+        specs = [("scalar", 1.25), ("numpy 0-d", np.float64(-0.5)), ("1-element list", [2.0]), ("tuple", tuple(vec)), ("list", list(vec)),
+                 ("array", np.array(vec)), ("float32 array", np.array(vec0, dtype=np.float32)), ("int tuple", tuple([1] + [0] * (dim - 1))),
+                 ("callable -> vector", lin)]     # (a scalar-valued callable is rejected with ValueError for vector fields)
+
+        def expected(spec, grid):                    # value added to the field on the flat grid (dim, n)
+            if callable(spec):
+                v = np.asarray(spec(*grid), dtype=float)
+                return v if v.ndim == 2 else np.broadcast_to(v, grid.shape)
+            v = np.asarray(spec, dtype=np.double).ravel()
+            if v.size == 1:
+                return np.full(grid.shape, v[0])
+            return np.repeat(v[:, None], grid.shape[1], axis=1)
+
+        n = int(rng.choice([1, dim, 6]))
+        pos = np.ascontiguousarray(rng.uniform(-5, 5, size=(dim, n)) * cfg["len_scale"])
+        axes = [np.sort(rng.uniform(-5, 5, size=k) * cfg["len_scale"]) for k in ([2, 1, 3][:dim])]
+        meshes = [("unstructured", tuple(pos), pos),
+                  ("structured", axes, np.array([g_.ravel() for g_ in np.meshgrid(*axes, indexing="ij")]))]
+        try:
+            with warnings.catch_warnings():
+                warnings.simplefilter("ignore")
+                base = {mt: np.asarray(make_srf(cfg)(p, mesh_type=mt)) for mt, p, _ in meshes}
+        except Exception as e:
+            ctx.violation("probe: mean/trend", "unexpected exception %r" % (e,), dict(cfg), key="meantrend:exception")
+            continue
+        combos = [(a, None) for a in specs] + [(None, b) for b in specs]
+        for _ in range(6):
+            combos.append((specs[int(rng.integers(len(specs)))], specs[int(rng.integers(len(specs)))]))
+        for ms, ts in combos:
+            for mt, p, grid in meshes:
+                label = "mean=%s, trend=%s, %s" % (ms[0] if ms else None, ts[0] if ts else None, mt)
+                case = dict(cfg, mean=ms[0] if ms else None, trend=ts[0] if ts else None, mesh_type=mt,
+                            mean_value=None if (ms is None or callable(ms[1])) else np.asarray(ms[1], dtype=float).ravel().tolist(),
+                            trend_value=None if (ts is None or callable(ts[1])) else np.asarray(ts[1], dtype=float).ravel().tolist(),
+                            grid=hexarr(grid))
+                try:
+                    with warnings.catch_warnings():
+                        warnings.simplefilter("ignore")
+                        m = make_model(cfg["cls"], dim, cfg["var"], cfg["len_scale"], 0.0, cfg.get("opt"))
+                        srf = gs.SRF(m, generator="VectorField", mean_velocity=cfg["mean_u"], mode_no=cfg["mode_no"], seed=cfg["seed"],
+                                     mean=ms[1] if ms else None, trend=ts[1] if ts else None)
+                        got = np.asarray(srf(p, mesh_type=mt))
+                except Exception as e:
+                    ctx.violation("probe: mean/trend %s" % label, "unexpected exception %r" % (e,), case, key="meantrend:exception")
+                    continue
+                exp = base[mt].reshape(dim, -1)
+                if ms:
+                    exp = exp + expected(ms[1], grid)
+                if ts:
+                    exp = exp + expected(ts[1], grid)
+                ctx.count(("meantrend", ms[0] if ms else None, ts[0] if ts else None, mt, dim),
+                          hist=dict(stage="mean-trend", mean=ms[0] if ms else "-", trend=ts[0] if ts else "-", mesh_type=mt))
+                if got.shape != base[mt].shape or not C.bit_equal(got.reshape(dim, -1), exp):
+                    dev = np.abs(got.reshape(dim, -1) - exp).max(1) if got.shape == base[mt].shape else None
+                    ctx.violation("probe: vector SRF with %s (%d-D)" % (label, dim),
+                                  "field(mean, trend) must be (field() + mean) + trend componentwise; largest deviation per component %r"
+                                  % (None if dev is None else dev.tolist()), dict(case, got=hexarr(got), expected=hexarr(exp)),
+                                  key="meantrend:%s" % ("trend" if ts else "mean"))
+                    break
+
+
 # ----------------------------------------------------------------------------------------------- run
 
 def run(ctx):
@@ -958,6 +1233,9 @@ def run(ctx):
                   ("divergence probe", lambda: probe_divergence(ctx, rng)),
                   ("pointwise probe", lambda: probe_pointwise(ctx, rng)),
                   ("history probe", lambda: probe_history(ctx, rng)),
+                  ("entry points (unstructured / mesh)", lambda: probe_entry_points(ctx, rng)),
+                  ("mean / trend options", lambda: probe_mean_trend(ctx, rng)),
+                  ("size classes", lambda: probe_sizes(ctx, rng, drv)),
                   ("sample_sphere parameterisation", lambda: probe_sphere(ctx, rng)),
                   ("ensemble probe", lambda: probe_ensemble(ctx, rng))]
         for nm, fn in stages:
